@@ -104,7 +104,8 @@ int main(int argc, char *argv[]) {
   for (const std::string &o : options.outputs) {
     out.push_back(util::CreateOrThrow(o.c_str()), options.compression);
   }
-  while (in.ReadLineOrEOF(line)) {
+  // Lines are written back byte for byte: do not strip a carriage return before the newline.
+  while (in.ReadLineOrEOF(line, '\n', false)) {
     preprocess::HashCallback cb;
     preprocess::RangeFields(line, options.key_fields, options.delim, cb);
     out[cb.Hash() % shard_count] << line << '\n';
